@@ -95,8 +95,8 @@ func objKey(o types.Object) string { return fmt.Sprintf("%s@%d", o.Name(), o.Pos
 // state
 
 type bstate struct {
-	le map[string]lin // key(L) -> L with the strongest c known (L + c ≤ 0; larger c is stronger)
-	ne map[string]lin // key(L)+c -> L + c ≠ 0
+	le map[string]lin        // key(L) -> L with the strongest c known (L + c ≤ 0; larger c is stronger)
+	ne map[string]lin        // key(L)+c -> L + c ≠ 0
 	bv map[string]*boolFacts // "v:"+key of a boolean variable -> the facts its value stands for
 }
 
@@ -362,13 +362,13 @@ func (s *bstate) provesOld(goal lin) (bool, string) {
 // the analysis of one function
 
 type boundsFunc struct {
-	ba    *boundsAnalysis
-	fi    *FuncInfo
-	info  *types.Info
-	cfg   *CFGInfo
-	in    map[*cfg.Block]*bstate
-	recv  *types.Var
-	pre   []lin // assumed preconditions (from the lifting)
+	ba   *boundsAnalysis
+	fi   *FuncInfo
+	info *types.Info
+	cfg  *CFGInfo
+	in   map[*cfg.Block]*bstate
+	recv *types.Var
+	pre  []lin // assumed preconditions (from the lifting)
 }
 
 type boundsSite struct {
@@ -384,13 +384,14 @@ type boundsSite struct {
 }
 
 type boundsAnalysis struct {
-	p        *Prog
-	funcs    map[*types.Func]*FuncInfo
-	modField map[*types.Func]map[string]bool // function -> receiver/param-rooted field names it may assign (".src")
-	shift    map[*types.Func]map[string]int // summarised per slice field: len(recv.f) decreases by parameter #i (when ≥ 0)
-	results  map[*types.Func]*boundsFunc
-	elemOK   func(t types.Type) bool
-	nilCache map[string]*nilSummary
+	p         *Prog
+	funcs     map[*types.Func]*FuncInfo
+	modField  map[*types.Func]map[string]bool // function -> receiver/param-rooted field names it may assign (".src")
+	shift     map[*types.Func]map[string]int  // summarised per slice field: len(recv.f) decreases by parameter #i (when ≥ 0)
+	results   map[*types.Func]*boundsFunc
+	elemOK    func(t types.Type) bool
+	nilCache  map[string]*nilSummary
+	trueCache map[*types.Func][]lin
 }
 
 func newBoundsAnalysis(p *Prog, fns []*FuncInfo) *boundsAnalysis {
@@ -622,8 +623,14 @@ func (bf *boundsFunc) linOf(e ast.Expr) (lin, bool) {
 		if tv, ok := info.Types[x.Fun]; ok && tv.IsType() && len(x.Args) == 1 && isIntType(tv.Type) {
 			if b, ok := tv.Type.Underlying().(*types.Basic); ok && (b.Kind() == types.Int || b.Kind() == types.Int64) {
 				if at := info.TypeOf(x.Args[0]); at != nil && isIntType(at) {
-					if ab, ok := at.Underlying().(*types.Basic); ok && ab.Info()&types.IsUnsigned == 0 {
-						return bf.linOf(x.Args[0])
+					if ab, ok := at.Underlying().(*types.Basic); ok {
+						// value-preserving: signed source, or an unsigned source narrower than the target
+						switch {
+						case ab.Info()&types.IsUnsigned == 0:
+							return bf.linOf(x.Args[0])
+						case ab.Kind() == types.Uint8 || ab.Kind() == types.Uint16 || (ab.Kind() == types.Uint32 && b.Kind() == types.Int64):
+							return bf.linOf(x.Args[0])
+						}
 					}
 				}
 			}
@@ -719,6 +726,12 @@ func (bf *boundsFunc) lenOf(e ast.Expr) (lin, bool) {
 		}
 		return hi.add(lo, -1), true
 	case *ast.CallExpr:
+		// make([]T, n): length n
+		if isBuiltinCall(bf.info, x, "make") && len(x.Args) >= 2 {
+			if _, isSlice := bf.info.TypeOf(x).Underlying().(*types.Slice); isSlice {
+				return bf.linOf(x.Args[1])
+			}
+		}
 		// string(b) / []byte(s): same length
 		if tv, ok := bf.info.Types[x.Fun]; ok && tv.IsType() && len(x.Args) == 1 {
 			if _, ok := underSliceOrString(tv.Type); ok {
@@ -795,6 +808,9 @@ func (bf *boundsFunc) factsOfLit(s *bstate, l Lit) {
 		}
 		// err == nil / err != nil for an error assigned from a summarised call
 		if tv, ok := bf.info.Types[x.Y]; ok && tv.IsNil() && (op == token.EQL || op == token.NEQ) {
+			if op == token.NEQ {
+				bf.nonNilSliceFacts(s, x.X)
+			}
 			if pk, ok := bf.pathKey(x.X); ok {
 				if b := s.bv["nil:"+pk]; b != nil && op == token.EQL {
 					for _, f := range b.t {
@@ -1237,7 +1253,9 @@ func (bf *boundsFunc) applyCalls(s *bstate, n ast.Node) {
 		fn := callee(bf.info, c)
 		if fn == nil {
 			// dynamic call: may do anything to fields reachable from the receiver
-			s.kill(func(t string) bool { return strings.Contains(t, ".") && (strings.HasPrefix(t, "len(") || strings.HasPrefix(t, "f:")) })
+			s.kill(func(t string) bool {
+				return strings.Contains(t, ".") && (strings.HasPrefix(t, "len(") || strings.HasPrefix(t, "f:"))
+			})
 			return true
 		}
 		mod := bf.ba.modField[fn]
@@ -1320,6 +1338,9 @@ func (bf *boundsFunc) run() {
 		entry.addLE(p)
 	}
 	bf.in[g.Blocks[0]] = entry
+	prevInterest := meetInterest
+	meetInterest = bf.interest()
+	defer func() { meetInterest = prevInterest }()
 	visits := map[*cfg.Block]int{}
 	edgeOut := map[*cfg.Block]map[*cfg.Block]*bstate{}
 	work := []*cfg.Block{g.Blocks[0]}
@@ -1377,7 +1398,7 @@ func (bf *boundsFunc) run() {
 				nw = out
 			} else {
 				nw = meet(old, out)
-				if visits[succ] > 6 {
+				if visits[succ] > 6 && (succ.Kind == cfg.KindForLoop || succ.Kind == cfg.KindRangeLoop || succ.Kind == cfg.KindLabel || visits[succ] > 40) {
 					// widening: drop facts whose constant keeps changing
 					for k, f := range nw.le {
 						if o, ok := old.le[k]; ok && o.c != f.c {
@@ -1488,7 +1509,7 @@ func (bf *boundsFunc) sites() []*boundsSite {
 			case *ast.FuncLit:
 				return false
 			case *ast.IndexExpr:
-				if _, ok := underSliceOrString(bf.info.TypeOf(x.X)); !ok {
+				if !isByteSeq(bf.info.TypeOf(x.X)) {
 					return true
 				}
 				if tv, ok := bf.info.Types[x.X]; ok && tv.Value != nil {
@@ -1512,7 +1533,7 @@ func (bf *boundsFunc) sites() []*boundsSite {
 				}
 				out = append(out, st)
 			case *ast.SliceExpr:
-				if _, ok := underSliceOrString(bf.info.TypeOf(x.X)); !ok || x.Slice3 {
+				if !isByteSeq(bf.info.TypeOf(x.X)) || x.Slice3 {
 					return true
 				}
 				if x.Low == nil && x.High == nil {
